@@ -231,16 +231,23 @@ func (w *World) probeBalances(n *Node, extra []string) {
 		vals, gross := w.refBalances(cur, a)
 		w.probe("c06-balance-queries")
 		if err != nil {
-			ok := false
+			negative, overflow := false, false
 			for i, v := range vals {
-				if v.Sign() < 0 || gross[i].Cmp(maxMel) >= 0 {
-					ok = true
+				if v.Sign() < 0 || v.Cmp(maxMel) >= 0 {
+					negative = true // an error is the right answer for (one of) the tips: the sum is negative or not an amount
+				} else if gross[i].Cmp(maxMel) >= 0 {
+					overflow = true
 				}
 			}
-			if !ok {
+			switch {
+			case negative:
+				w.probe("c06-negative-or-unrepresentable-sum-answered-with-error")
+			case overflow:
+				// the sum is a representable, non-negative amount, but the gross in- or outflow the code adds up
+				// separately is not (known finding)
+				w.violate("C06", "balance", "error-instead-of-balance:gross-flow-overflow", n.Idx, "address %s ref %v err %v", shortAddr(a), vals, err)
+			default:
 				w.violate("C06", "balance", "error-instead-of-balance", n.Idx, "address %s ref %v err %v", shortAddr(a), vals, err)
-			} else {
-				w.probe("c06-negative-or-overflow-error")
 			}
 			sumOK = false
 			continue
